@@ -346,6 +346,17 @@ func Cli() {
 	if family == "actions" {
 		o.Init, o.Fmt, o.Variables, o.Show, o.Debug = sym.Bool("init"), sym.Bool("fmt"), sym.Bool("vars"), sym.Bool("show"), sym.Bool("debug")
 	}
+	if family == "actions" && o.Init && hadGitignore {
+		// what --init appends to: LF, CRLF, no final newline, empty - in the directory it acts
+		// in (a seeded change re-wrote the file line by line and lost the carriage returns; the
+		// one fixed LF content let it through, DESIGN.md 9.5)
+		contents := []string{"node_modules\n", "node_modules\r\n*.log\r\n", "node_modules", ""}
+		target := "proj/.gitignore"
+		if nested {
+			target = "proj/sub/.gitignore"
+		}
+		p.put(target, contents[sym.Choice("gitignore_content", len(contents))])
+	}
 	taskLists := [][]string{{}, {"a"}, {"b"}, {"a", "b"}, {"nosuch"}}
 	if family == "actions" {
 		taskLists = [][]string{{}, {"a"}}
